@@ -199,6 +199,7 @@ async def run_worker(loop, sc: dict, make=None, projector=inmem_projector, signa
 
     jobs = {j["id"]: j for j in sc["jobs"]}
     jobobjs: dict = {}
+    gates: dict = {}
     last_outcome: dict = {}
     attempts = {j["id"]: 0 for j in sc["jobs"]}
     conv = BasicConverter if sc.get("converter", "basic") == "basic" else PydanticConverter
@@ -253,6 +254,11 @@ async def run_worker(loop, sc: dict, make=None, projector=inmem_projector, signa
             try:
                 if dur:
                     await asyncio.sleep(dur / 1000)
+                if job.get("gate_steps") is not None and att == 0:
+                    # the body ends when the harness opens its gate: a chosen number of event-loop steps after the stop request
+                    # (no time passes: the end of the actor falls between two steps of the shutdown, not on a timer)
+                    gates.setdefault(jid, asyncio.Event())
+                    await gates[jid].wait()
                 if what == "ok":
                     return {"jid": jid, "att": att}
                 if what == "raise":
@@ -462,6 +468,11 @@ async def run_worker(loop, sc: dict, make=None, projector=inmem_projector, signa
 
     def after(h):
         prev_after(h)
+        if state["stopped"] and gates:
+            state.setdefault("stop_step", loop.steps)
+            for jid, g in gates.items():
+                if not g.is_set() and loop.steps - state["stop_step"] >= jobs[jid]["gate_steps"]:
+                    g.set()
         st = sc.get("stop")
         if st and not state["stopped"]:
             if "at_step" in st and loop.steps - state["steps0"] >= st["at_step"]:
